@@ -6,6 +6,16 @@ from fractions import Fraction
 from . import core, engine
 from .core import unhx, hx
 
+
+def sabs(x):
+    """abs that saturates instead of raising on complex overflow"""
+    try:
+        return abs(x)
+    except OverflowError:
+        return float("inf")
+
+
+
 # ------------------------------------------------------------------------------------------------
 # exact unit definitions (C05 / C06)
 
@@ -100,8 +110,8 @@ def close(a, b, rel, abs_=0.0):
         a, b = complex(a), complex(b)
         if any(math.isnan(x) or math.isinf(x) for x in (a.real, a.imag, b.real, b.imag)):
             return None
-        return abs(a - b) <= rel * max(abs(a), abs(b)) + abs_
-    return abs(a - b) <= rel * max(abs(a), abs(b)) + abs_
+        return sabs(a - b) <= rel * max(sabs(a), sabs(b)) + abs_
+    return sabs(a - b) <= rel * max(sabs(a), sabs(b)) + abs_
 
 
 CONV_RE = re.compile(r"^(\(?[-0-9.e+*i]+\)?) (\S+) as (\S+)$")
@@ -418,7 +428,7 @@ def outcomes_by_text(lines):
 def complex_close(a, b, tol_abs):
     if any(math.isnan(x) or math.isinf(x) for x in (a.real, a.imag, b.real, b.imag)):
         return None
-    return abs(a - b) <= tol_abs
+    return sabs(a - b) <= tol_abs
 
 
 def oracle_eval(ctx, name, a, b, cpath):
@@ -533,7 +543,7 @@ def stable(r1, r2):
         x, y = complex(x), complex(y)
         if any(math.isnan(t) or math.isinf(t) for t in (x.real, x.imag, y.real, y.imag)):
             return True
-        return abs(x - y) <= 2e-10 * max(abs(x), abs(y), 1e-300)
+        return sabs(x - y) <= 2e-10 * max(sabs(x), sabs(y), 1e-300)
     if a[0] == "n":
         return near(a[1], b[1])
     if a[0] == "q":
@@ -541,8 +551,8 @@ def stable(r1, r2):
     if a[0] == "m":
         fa = [x for r in a[1] for x in r]
         fb = [x for r in b[1] for x in r]
-        m = max([abs(x) for x in fa] + [1e-300])
-        return len(fa) == len(fb) and all(abs(x - y) <= 2e-10 * m for x, y in zip(fa, fb))
+        m = max([sabs(x) for x in fa] + [1e-300])
+        return len(fa) == len(fb) and all(sabs(x - y) <= 2e-10 * m for x, y in zip(fa, fb))
     return True
 
 
@@ -561,7 +571,7 @@ def judge_value(res, o, ev, text):
     if v[0] == "n":
         if got[0] != "n":
             return "expected a number, got %s" % o[3][:80]
-        tol = 1e-9 * max(abs(v[1]), scale)
+        tol = 1e-9 * max(sabs(v[1]), scale)
         c = complex_close(got[1], v[1], tol)
         if c is False:
             return "value %r, the mathematics gives %r (bound %.3g)" % (got[1], v[1], tol)
@@ -575,11 +585,11 @@ def judge_value(res, o, ev, text):
             return "kind %s, expected %s" % (kind, v[1])
         if kind == "temperature":
             gsize = to_kelvin(got[2], unit)
-            tol = 1e-9 * max(abs(v[2]), 300.0)
+            tol = 1e-9 * max(sabs(v[2]), 300.0)
         else:
             gsize = got[2] * float(size)
             rel = 1e-5 if (imp or "imperial" in ev.flags) else 1e-9
-            tol = rel * max(abs(v[2]), scale * 0 + abs(v[2]))
+            tol = rel * max(sabs(v[2]), scale * 0 + sabs(v[2]))
             tol = max(tol, 1e-300)
         c = complex_close(complex(gsize), complex(v[2]), tol)
         if c is False:
@@ -592,10 +602,10 @@ def judge_value(res, o, ev, text):
         flatA = [x for r in A for x in r]
         flatB = [x for r in B for x in r]
         if (len(A), len(A[0])) != (len(B), len(B[0])):
-            if len(flatA) == len(flatB) and all(complex_close(x, y, 1e-9 * max(1.0, abs(y))) for x, y in zip(flatA, flatB)):
+            if len(flatA) == len(flatB) and all(complex_close(x, y, 1e-9 * max(1.0, sabs(y))) for x, y in zip(flatA, flatB)):
                 return "orientation: shape %dx%d, expected %dx%d with the same entries" % (len(A), len(A[0]), len(B), len(B[0]))
             return "shape %dx%d, expected %dx%d" % (len(A), len(A[0]), len(B), len(B[0]))
-        m = max([abs(y) for y in flatB] + [scale])
+        m = max([sabs(y) for y in flatB] + [scale])
         for x, y in zip(flatA, flatB):
             c = complex_close(x, y, 1e-8 * m)
             if c is False:
